@@ -14,6 +14,7 @@ pub mod wire;
 pub mod fixtures;
 pub mod shadow;
 pub mod session;
+pub mod types;
 pub mod props;
 
 #[cfg(feature = "track-alloc")]
